@@ -1675,7 +1675,7 @@ class Qube(object):
             return self
 
         result = self.clone(recursive=True)
-        del result._derivs_[key]
+        result.delete_deriv(key, override=True)
 
         return result
 
